@@ -87,6 +87,39 @@ def install_tracing():
     SimulationFixedTimes._rv_traced = True
 
 
+def install_seed_tracing():
+    """record-only wrappers on numpy.random.seed / random.seed that append (pid, generator, state digest before / after) to the
+    event file; installed before the pools are forked, hence active in the worker processes too"""
+    import random
+
+    if getattr(np.random, "_rv_seed_traced", False):
+        return
+    np_seed, py_seed = np.random.seed, random.seed
+
+    def log(gen, before, after):
+        path = os.environ.get("RV_C08_EVENTS")
+        if path:
+            fd = os.open(path, os.O_WRONLY | os.O_APPEND | os.O_CREAT, 0o644)
+            try:
+                os.write(fd, (json.dumps({"pid": os.getpid(), "kind": "seeding", "gen": gen, "before": before, "after": after}) + "\n").encode())
+            finally:
+                os.close(fd)
+
+    def traced_np_seed(seed=None):
+        before = _np_digest()
+        np_seed(seed)
+        log("numpy", before, _np_digest())
+
+    def traced_py_seed(a=None, *args, **kw):
+        before = _py_digest()
+        py_seed(a, *args, **kw)
+        log("random", before, _py_digest())
+
+    np.random.seed = traced_np_seed
+    random.seed = traced_py_seed
+    np.random._rv_seed_traced = True
+
+
 # ------------------------------------------------------------------------------------------------------------
 # seed audit
 # ------------------------------------------------------------------------------------------------------------
@@ -190,6 +223,7 @@ def do_run(spec):
         conf = ConfigurationStandard(mc_paths=spec["paths"], seed=spec.get("seed"), nb_of_processes=spec["workers"])
         st = Engine(conf, proc).price(product)
         levels = [np.asarray(st._payoff_statistics.stats, dtype=float).reshape(-1)]
+        fine = [levels[0]]
     else:
         from rpylib.montecarlo.configuration import ConfigurationMultiLevel, ConvergenceRates
         from rpylib.montecarlo.multilevel.engine import Engine
@@ -202,16 +236,19 @@ def do_run(spec):
                                        maximum_level=3, initial_mc_paths=spec["paths"], seed=spec.get("seed"), nb_of_processes=spec["workers"])
         eng = Engine(conf, cp)
         st = eng.price_with_constant_mc_paths_and_level(product) if spec["engine"] == "mlmc-fixed" else eng.price(product, spec.get("rmse", 0.5))
-        levels = []
+        levels, fine = [], []
         for l in range(len(st.mc_statistics)):
-            levels.append(np.asarray(st.mc_statistics[l]._payoff_statistics.stats, dtype=float).reshape(-1))
+            arr = np.asarray(st.mc_statistics[l]._payoff_statistics.stats, dtype=float)
+            levels.append(arr.reshape(-1))
+            fine.append(arr[:, 0, 0].copy())
     digest = hashlib.sha1(b"".join(a.tobytes() for a in levels)).hexdigest()
-    return {"digest": digest, "levels": [a.tolist() for a in levels]}
+    return {"digest": digest, "levels": [a.tolist() for a in levels], "fine": [a.tolist() for a in fine]}
 
 
 if __name__ == "__main__":
     spec = json.loads(sys.argv[1])
     if spec.get("trace"):
         install_tracing()
+        install_seed_tracing()
     out = do_run(spec)
-    print("RESULT " + json.dumps({"digest": out["digest"], "n": [len(a) for a in out["levels"]], "levels": out["levels"]}))
+    print("RESULT " + json.dumps({"digest": out["digest"], "n": [len(a) for a in out["levels"]], "levels": out["levels"], "fine": out["fine"]}))
